@@ -16,6 +16,65 @@ def agg_inputs(rng, n, k=None, need_missing=False):
     return {"fact": fact, "weights": weights, "ignore_missing": bool(rng.random() < 0.5)}
 
 
+def counter_boundary_case(rng):
+    """A cube in which one cell has exactly m missing (or valid) rows, m on a narrow-integer boundary
+    (255/256/257, 512, 65535/65536): a per-cell counter kept in too narrow a type wraps there."""
+    m = int(gen.pick(rng, [255, 256, 257, 512, 256, 65536, 65535]))
+    ndims = int(rng.integers(1, 3))
+    ext = [int(rng.integers(2, 4)) for _ in range(ndims)]
+    target = tuple(int(rng.integers(0, e)) for e in ext)
+    r = int(rng.integers(2, 40))
+    n = m + r
+    dense = []
+    for d in range(ndims):
+        a = numpy.empty(n, dtype=numpy.int64)
+        a[:m] = target[d]
+        a[m:] = rng.integers(0, ext[d], size=r)
+        dense.append(a)
+    # make sure the target cell also holds at least one extra row
+    for d in range(ndims):
+        dense[d][m] = target[d]
+    perm = rng.permutation(n)
+    dense = [a[perm] for a in dense]
+    special = numpy.zeros(n, dtype=bool)
+    special[:m] = True
+    special = special[perm]
+    which = gen.pick(rng, ["missing_facts", "valid_facts", "missing_weights"])
+    k = gen.pick(rng, [None, None, 2])
+    shape = (n,) if k is None else (n, k)
+    values = (rng.integers(-16, 16, size=shape) / 4.0).astype(float)
+    if which == "missing_facts":
+        fmiss = special.copy()
+    elif which == "valid_facts":
+        fmiss = ~special
+        fmiss[rng.random(n) < 0.5] &= True
+    else:
+        fmiss = numpy.zeros(n, dtype=bool)
+    if k is not None:
+        fm = numpy.zeros(shape, dtype=bool)
+        fm[:, 0] = fmiss
+        fmiss = fm
+    if rng.random() < 0.5:
+        v = values.copy()
+        v[fmiss] = numpy.nan
+        fact = {"values": v, "validity": None, "dyadic": True}
+    else:
+        fact = {"values": values, "validity": ~fmiss, "dyadic": True}
+    if which == "missing_weights":
+        w = (rng.integers(1, 9, size=n) / 4.0).astype(float)
+        if rng.random() < 0.5:
+            w2 = w.copy()
+            w2[special] = numpy.nan
+            weights = {"kind": "array", "values": w2}
+        else:
+            weights = {"kind": "tuple", "values": w, "validity": ~special}
+    else:
+        weights = gen.weight_case(rng, n, cls=gen.pick(rng, ["none", "none", "array"]), dyadic=True)
+    commons = [int(rng.integers(0, e)) for e in ext]
+    return {"dense": dense, "commons": commons, "shape": tuple(ext), "extents": ext, "n": n, "fact": fact,
+            "weights": weights, "ignore_missing": bool(rng.random() < 0.5), "boundary_m": m, "boundary_kind": which}
+
+
 def ref_parts(case):
     n = case["n"]
     fact = gen.fact_parts(case["fact"])
